@@ -255,6 +255,32 @@ maps to itself: non-empty segments, none of them `.` or `..` -/
 def plainRel (f : Str) : Bool :=
   f ≠ [] && (splitChar '/' f).all (fun seg => seg ≠ [] && seg ≠ ['.'] && seg ≠ ['.', '.'])
 
+/-! ### `ID_PATTERN`: which references are `$id` / anchor references
+
+`resolve_ref` looks a reference up in the id registry (`self.ids[current root][ref]`) exactly when
+`ID_PATTERN.match(ref)` succeeds.  The pattern is DATA of the source: its text, its flags and the places it is
+used are regenerated into `Gen/ResolverTables` (`idPattern`, `idPatternFlags`, `idPatternUses`) on every run and
+`Props/C06.id_pattern_is_reviewed` states that they are the values below.  `isIdRef` is the reviewed reading of
+those values and is compared with the real `ID_PATTERN.match` on every run. -/
+
+/-- the reviewed source text of `reference.ID_PATTERN` -/
+def reviewedIdPattern : Str := "^#[^/].*".toList
+/-- `re.UNICODE` only: what `re.compile` gives a `str` pattern compiled without flags (in particular not
+`re.VERBOSE`, under which `#` would start a comment, and not `re.IGNORECASE` / `re.ASCII`) -/
+def reviewedIdPatternFlags : Nat := 32
+/-- the only read of the name: `ID_PATTERN.match(joined_path)` in `ModelResolver.resolve_ref`
+(`match` anchors at the start of the string and accepts any rest) -/
+def reviewedIdPatternUses : List Str :=
+  ["reference.py:ModelResolver.resolve_ref:ID_PATTERN.match(joined_path)".toList]
+
+/-- `ID_PATTERN.match(r) is not None` for the reviewed pattern `^#[^/].*` applied with `re.match`:
+`#`, then one character that is not `/` (a negated class also matches a newline), then anything (`.*` may be
+empty and `match` does not require the end of the string). So `#` alone (the document root) and `#/…` (JSON
+pointers) are not id references; `#foo`, `#a-b`, `##`, `#1/x` are. -/
+def isIdRef : Str → Bool
+  | '#' :: c :: _ => c != '/'
+  | _ => false
+
 inductive Res where
   | ok (path : Str)
   /-- Python raises (`KeyError` for an unregistered anchor, `IndexError` for `""`) -/
@@ -274,7 +300,7 @@ def resolveRef (root : List Str) (r : Str) : Res :=
       if c = '#' then
         if r.tail.head? = some '/' then
           (if isUrl rootJ then .unmodelled else .ok (rootJ ++ r))
-        else .raised                               -- `ID_PATTERN`: anchor looked up in the (empty) id table
+        else .raised                               -- `isIdRef r`: anchor looked up in the (empty) id table
       else
         -- relative file reference (a URL is never `plainRel`: it contains an empty segment)
         let fo := splitHash r
